@@ -408,12 +408,13 @@ class _MainStub:
         return m > 0
 
 
-def boolean_boundary_random_case():
+def boolean_boundary_random_case(n=2):
     """`_random_points_boundary` (boundaries of unions / cuts / intersections) on ARBITRARY operands whose
     outline measures are affine functions of the parameter row: the batch asked of each outline FOR ROW i
     must be int(n*|outline|(t_i)/|boundary|(t_i))+1 with the measures OF ROW i and the parameter row i
     (law: the proposals of a row are split between the two outlines in proportion to that row's measures)"""
-    cname = "boolean_boundary/random/share_of_its_row/k2"
+    cname = "boolean_boundary/random/share_of_its_row/k2" + ("" if n == 2 else "/n%d" % n)
+    n_req = n
 
     def body(env):
         from torchphysics.problem.domains.domainoperations import sampler_helper as HP
@@ -431,7 +432,7 @@ def boolean_boundary_random_case():
             # stated bound: each outline is at most as long as the whole boundary (batches of 1..3 points)
             env.assume(L.And(L.gt(va[0], 0), L.gt(va[1], 0), L.gt(va[2], 0), L.le(va[0], va[2]), L.le(va[1], va[2])))
         env.assume(L.ne(ts[0], ts[1]))
-        n = 2
+        n = n_req
         res = HP._random_points_boundary(main, _OperandStub(oa), _OperandStub(ob), n, P, "cpu")
         reqs = [(e[1], e[2], SH.elems(env, e[3])[0]) for e in log if e[0] == "rand"]
         return dict(reqs=reqs, meas=meas, ts=ts, n=n, rows=len(res))
@@ -456,15 +457,17 @@ def boolean_boundary_random_case():
                 v = a if tag == "oa" else b
                 yield "batch_is_share_of_its_row[row%d,req%d]" % (i, j), L.And(L.le((k - 1) * m, n * v), L.lt(n * v, k * m))
 
-    return Case(cname, body, goals, family="boolean_boundary/random", max_paths=60, max_forks_per_site=8, int_hi=4)
+    return Case(cname, body, goals, family="boolean_boundary/random", max_paths=60 if n == 2 else 200,
+                max_forks_per_site=8, int_hi=n + 2)
 
 
-def boolean_boundary_grid_case():
+def boolean_boundary_grid_case(n=2):
     """`_boundary_grid_with_n` on ARBITRARY operands (symbolic outline measures, free membership answers for
     the first grids): the rescaled grid sizes are int(n*|A|/S)+1 and max(int(n*|B|/S),1) with the surface
     estimate S = |A|*a_ok/n + |B|*b_ok/n built from BOTH outlines' surviving fractions.
     Cut: the run ends when the second pair of grids has been requested (stated as outside the claim)"""
-    cname = "boolean_boundary/grid/surface_estimate/n2"
+    cname = "boolean_boundary/grid/surface_estimate/n%d" % n
+    n_req = n
 
     def body(env):
         from torchphysics.problem.domains.domainoperations import sampler_helper as HP
@@ -478,7 +481,7 @@ def boolean_boundary_grid_case():
         a, b = [SH.elems(env, o.base)[0] + SH.elems(env, o.slope)[0] * t for o in (oa, ob)]
         # stated bound: outline measures within a factor 2 of each other (rescaled grids of at most 5 points)
         env.assume(L.And(L.gt(a, 0), L.gt(b, 0), L.le(a, 2 * b), L.le(b, 2 * a)))
-        n = 2
+        n = n_req
         stopped = False
         try:
             HP._boundary_grid_with_n(main, _OperandStub(oa), _OperandStub(ob), n, P, "cpu")
@@ -515,7 +518,8 @@ def boolean_boundary_grid_case():
                     L.And(L.le(sb * S, n * n * b), L.lt(n * n * b, (sb + 1) * S)),
                     L.And(sb == 1, L.lt(n * n * b, S))))
 
-    return Case(cname, body, goals, family="boolean_boundary/grid", max_paths=80, max_forks_per_site=8, int_hi=6)
+    return Case(cname, body, goals, family="boolean_boundary/grid", max_paths=80 if n == 2 else 400,
+                max_forks_per_site=8 if n == 2 else 16, int_hi=6 if n == 2 else 3 * n + 1)
 
 
 
@@ -885,6 +889,9 @@ def cases(tier):
         cs.append(rejection_case("intersection", "Parallelogram", "Circle"))
     cs.append(boolean_boundary_random_case())
     cs.append(boolean_boundary_grid_case())
+    if not quick:
+        cs.append(boolean_boundary_random_case(3))
+        cs.append(boolean_boundary_grid_case(3))
     cs.append(product_law_case())
     cs.append(product_law_case(translated=True))
     cs.append(lhs_rows_case("Interval[t]", lambda env: SH.interval(env, dep="t")))
